@@ -17,7 +17,8 @@ RULE = ('Hypothesis generates a sequential program (<= 6 steps) and recording pa
         'every created recording has exactly one finalisation (save xor abort); if a capture failed or a discard '
         'happened the finalisation is abort and the serialised store is unchanged; afterwards every recording present '
         'in the store and not flagged incomplete is replayed with the same program and must complete without a '
-        'missing-key error, with no wrapped body executed. Non-trivial: fault or termination at step >= 2 after >= 1 '
+        'missing-key error, with no wrapped body executed; a following fault-free operation on the same recorder and thread is '
+        'saved and replays as well. Non-trivial: fault or termination at step >= 2 after >= 1 '
         'successful capture, or a fault pair. A second part runs threaded programs (2-3 workers that discard, force sampling '
         'and intercept concurrently) under the deterministic scheduler and requires exactly one finalisation there too. '
         'Distinct = distinct (program, placement, parameters, cassette).')
@@ -60,6 +61,39 @@ def check_case(ctx, case):
             raise Violation('store changed although a capture failed / the recording was discarded (%s)' % what,
                             'whole-or-nothing')
         replayed = 0
+        # a later, fault-free operation of the same service on the same recorder and thread is captured whole as well
+        clean, _ = FR.apply_faults(case['prog'], [])
+        clean_prog = PS.assign_sids(PS.normalise_inputs(clean))
+        clean_prog['class_name'] = fr.cls.__name__ + 'Next'
+        Wn = PS.World('LIVE')
+        fr.cas.fail_save = False
+        n0 = len(fr.cas.spy_log)
+        next_cls = PS.build_class(clean_prog, fr.rec, Wn)
+        try:
+            out_next = PS.execute(next_cls, clean_prog)
+            if out_next[0] == 'exc' and out_next[1] != 'Err':
+                raise Violation('the next operation on the same recorder failed with %s: %s (%s)' % (
+                    out_next[1], out_next[2], what), 'next-operation')
+            log_next = fr.cas.spy_log[n0:]
+            if [e[0] for e in log_next] != ['create', 'save']:
+                raise Violation('the next, fault-free operation on the same recorder was finalised as %r (%s)' % (
+                    [e[0] for e in log_next], what), 'next-operation')
+            Wn.world, Wn.journal, Wn.sites = 'REPLAY', [], {}
+
+            def next_pf(recording):
+                o = PS.execute(next_cls, clean_prog)
+                if o[0] != 'ret':
+                    raise o[2]
+
+            try:
+                fr.rec.play(log_next[0][1], next_pf)
+            except RecordingKeyError as e:
+                raise Violation('the recording of the next, fault-free operation on the same recorder does not replay: '
+                                '%s (%s)' % (e, what), 'next-operation')
+            if [j for j in Wn.journal if j[0] == 'body']:
+                raise Violation('replay of the next operation executed wrapped bodies (%s)' % what, 'next-operation')
+        finally:
+            PS.forget_class(next_cls)
         # replay what is in the store
         for cat in set([fr.cls.__name__]):
             for stored in list(fr.cas.iter_recording_ids(cat)):
